@@ -345,6 +345,26 @@ func TestVerifCodec(t *testing.T) {
 				break
 			}
 		}
+		// decoding into a message that already holds data must give the same
+		// result as decoding into a fresh one (Unmarshal resets its target)
+		if !strings.Contains(kind, "unknown") {
+			other, okind := cdMessage(rng)
+			if strings.TrimSuffix(okind, "+unknown") == kind && other.ProtoReflect().Descriptor() == orig.ProtoReflect().Descriptor() {
+				other.ProtoReflect().SetUnknown(nil)
+				var derr error
+				hh := vStartOp(func() { derr = c.Unmarshal(got, other) })
+				if st := hh.awaitDone(60e9); st == vDone && !hh.panicked && derr == nil {
+					out.hit("C19.decode-into-used-target")
+					o2 := proto.Clone(other)
+					o2.ProtoReflect().SetUnknown(nil)
+					w2 := proto.Clone(orig)
+					w2.ProtoReflect().SetUnknown(nil)
+					if !proto.Equal(o2, w2) {
+						report(idx, "C19.decode-equal", "used-target", "decoding the output into a message that already held data gives a message different from the original (the target was not reset)", lg)
+					}
+				}
+			}
+		}
 		out.nontrivial(vHashStrings([]string{kind, fmt.Sprintf("%x", crc), fmt.Sprint(len(b))}))
 		if len(out.Samples) < 3 && len(b) > 0 && len(b) < 200 {
 			out.sample(map[string]interface{}{"case": idx, "kind": kind, "payload_len": len(b), "output_prefix": fmt.Sprintf("%x", got[:6])})
